@@ -9,7 +9,8 @@ META = dict(
     bounds="interpolation {Quaternion, R12} x {displacement-based, mixed, constrained} x degree 1 x element count {1, 2} with a seeded concrete curved "
            "reference configuration; state q (non-unit nodal quaternions), u, u_dot, multipliers, body-fixed offset symbolic; cross-section parameter "
            "xi in {0, 1/2, 1}; element Jacobians per basis direction (all directions in the thorough tier, a seeded sample in the quick tier).  thorough: "
-           "SE3 and p = 2 (may stay inconclusive).",
+           "adds degree 2 (Quaternion).  Outside: the SE3 interpolation (Log_SE3 of the relative nodal transformation takes the arccos of a term that is "
+           "not the cosine of a registered angle: not encodable with the Weierstrass libm model), element counts > 2, other xi.",
     assumptions=["nodal quaternions nonzero; interpolated quaternion nonzero at the evaluated xi", "basis values and Gauss data are the repo's floats taken as exact rationals"],
     trusted_base=[],
 )
@@ -148,7 +149,7 @@ def cases(tier, seed):
     T = 120 if tier == "quick" else 900
     cs = []
     rng = np.random.default_rng(seed)
-    grid = [("Quaternion", 1), ("R12", 1)] + ([("SE3", 1), ("Quaternion", 2)] if tier == "thorough" else [])
+    grid = [("Quaternion", 1), ("R12", 1)] + ([("Quaternion", 2)] if tier == "thorough" else [])
     for interp, p in grid:
         for nel in ((1, 2) if p == 1 else (1,)):
             tag = f"{interp}/p{p}/nel{nel}"
